@@ -10,8 +10,6 @@ use std::ops::Range;
 pub assume_specification<Idx: Clone> [<Range<Idx> as Clone>::clone] (r: &Range<Idx>) -> (c: Range<Idx>) ensures c == *r;
 #[derive(Debug, Clone, Copy, PartialEq, Eq, Structural)]
 pub struct StatusCode { pub bits: u32 }
-pub const SHA1_SIZE: usize = 20;
-pub const SHA256_SIZE: usize = 32;
 pub struct AesKey { pub value: Vec<u8> }
 // ---- cryptography (OpenSSL): HMAC and AES-CBC as uninterpreted functions of (key, data)
 pub uninterp spec fn spec_mac(p: SecurityPolicy, key: Seq<u8>, data: Seq<u8>) -> Seq<u8>;
@@ -235,6 +233,8 @@ def build(manifest):
     a = Asm()
     a.add('use vstd::prelude::*;\nverus! {\nglobal size_of usize == 8;\n', 'prelude', 'env')
     a.add(norm_vis(types), 'types', 'env')
+    cr_ = Src('crypto/mod.rs', manifest)
+    a.add(norm_vis(cr_.const('SHA1_SIZE')) + '\n' + norm_vis(cr_.const('SHA256_SIZE')), 'constants', 'env')      # the repository's own values
     a.add(ENV, 'env', 'env')
     a.add('impl SecurityPolicy {')
     a.add(f['symmetric_signature_size'], 'symmetric_signature_size', 'fn')
